@@ -22,7 +22,7 @@ Mirrors the Go code **as it is now** (HEAD of /repo, after the `fix:` commits 80
 | `px/context.go AddTypes`, `internal/context.go resolveTypes/resolveTypeSet` | `addTypes`, `resolveTS`   |
 | `loader/loader.go basicLoader.SetEntry/GetEntry`, `load`       | `setEntry`, `St.get`, `load`           |
 | `loader/loader.go parentedLoader.LoadEntry` (parent first)     | first lines of `fbLoadEntry`           |
-| `loader/dependency.go LoadEntry / find`                        | `dLoadEntry`, `dFind`, `dLoop`         |
+| `loader/dependency.go LoadEntry / find`                        | `dLoadEntry`, `dFind`, `dMembers`, `dLoop` |
 
 Parameters (not modelled, exercised by the correspondence run only): the OS file system (a tree is a list of
 (path segments, body) **given in `filepath.Walk` order**; the driver sorts), the parser (`Body` says what
@@ -173,6 +173,9 @@ structure Cfg where
   tree : Tree              -- in walk order
   via : Lid                -- the context's loader (also its defining loader)
   guardInit : Bool := true -- fix 51b01c7; `false` = the `init_typeset` route without the placeholder guard
+  flat : Bool := false     -- loader topology: `false` = module loaders are children of the global loader and the dependency
+                           -- loader holds the module loaders; `true` = the global loader is the FIRST MEMBER of the
+                           -- dependency loader and every file loader is a child of the system loader
 
 structure St where
   ents : List ((Lid × Key) × Entry) := []
@@ -300,7 +303,7 @@ def fbLoadEntry : Nat → Cfg → Lid → Name → M (Option Entry)
   | 0, _, _, _ => raise .diverges
   | n+1, cfg, l, name => do
     let pe ← (match l with
-      | .m _ => fbLoadEntry n cfg .g name
+      | .m _ => if cfg.flat then pure (sysLoad name) else fbLoadEntry n cfg .g name
       | _ => pure (sysLoad name))
     let st ← getSt
     let entry := match pe with
@@ -450,15 +453,28 @@ def dLoadEntry : Nat → Cfg → Name → M (Option Entry)
         let e ← setEntry .d (keyOf name) (r.getD none)
         pure (some e)
 
-/-- `dependencyLoader.find`: the module named by the first segment, else every module in order -/
+/-- `dependencyLoader.find`: a QUALIFIED name goes to the module named by its first segment (`name.IsQualified()` guards
+    the routing: an unqualified name is never routed by its first segment), every other name to every member in order -/
 def dFind : Nat → Cfg → Name → M (Option Entry)
   | 0, _, _ => raise .diverges
   | n+1, cfg, name => do
     if !cfg.mods.isEmpty && qualified name then
       let ps ← partsM name
       match ps.head? with
-      | some h => if cfg.mods.contains h then fbLoadEntry n cfg (.m h) name else dLoop n cfg cfg.mods name
-      | none => dLoop n cfg cfg.mods name
+      | some h => if cfg.mods.contains h then fbLoadEntry n cfg (.m h) name else dMembers n cfg name
+      | none => dMembers n cfg name
+    else dMembers n cfg name
+
+/-- the `for _, ml := range l.loaders` loop: in the flat topology the global loader is the first member (it has no module
+    name, so it is not in `l.index` and never an explicit target) -/
+def dMembers : Nat → Cfg → Name → M (Option Entry)
+  | 0, _, _ => raise .diverges
+  | n+1, cfg, name =>
+    if cfg.flat then do
+      let e ← fbLoadEntry n cfg .g name
+      match e with
+      | some (some d) => pure (some (some d))
+      | _ => dLoop n cfg cfg.mods name
     else dLoop n cfg cfg.mods name
 
 def dLoop : Nat → Cfg → List String → Name → M (Option Entry)
@@ -512,7 +528,7 @@ def hasEntry (cfg : Cfg) (s : St) : Lid → Key → Bool
     | some (some _) => true
     | _ => false
   | .g, k => staticHas k || !(idx cfg .g k).isEmpty
-  | .m mod, k => staticHas k || !(idx cfg .g k).isEmpty || !(idx cfg (.m mod) k).isEmpty
+  | .m mod, k => staticHas k || (!cfg.flat && !(idx cfg .g k).isEmpty) || !(idx cfg (.m mod) k).isEmpty
 
 def sortKeys (ks : List Key) : List Key :=
   ks.mergeSort (fun a b => !(joinName b < joinName a))
@@ -524,8 +540,8 @@ def discover (cfg : Cfg) (s : St) : Lid → List Key
       | _ => none)))
   | .g => sortKeys ((idxKeys cfg .g).filter (fun k => !staticHas k))
   | .m mod =>
-    let gk := (idxKeys cfg .g).filter (fun k => !staticHas k)
-    let mk := (idxKeys cfg (.m mod)).filter (fun k => !staticHas k && (idx cfg .g k).isEmpty)
+    let gk := if cfg.flat then [] else (idxKeys cfg .g).filter (fun k => !staticHas k)
+    let mk := (idxKeys cfg (.m mod)).filter (fun k => !staticHas k && (cfg.flat || (idx cfg .g k).isEmpty))
     sortKeys (gk ++ mk)
 
 /-- how often a path was read -/
